@@ -314,6 +314,14 @@ def grouping_shape(grp):
             if isinstance(tgt, ast.Subscript) and isinstance(tgt.slice, ast.Name) and tgt.slice.id == catv and a.args and \
                     isinstance(a.args[0], ast.Name) and a.args[0].id == idv:
                 return True, 'loop: %s[%s].append(%s)' % (norm(tgt.value), catv, idv)
+        if not catv and len(appends) == 1:
+            # the category written in place as the subscript: grouping[<cassette>.extract_recording_category(id)].append(id)
+            a = appends[0]
+            tgt = a.func.value
+            k = tgt.slice if isinstance(tgt, ast.Subscript) else None
+            if isinstance(k, ast.Call) and isinstance(k.func, ast.Attribute) and k.func.attr == 'extract_recording_category' and k.args and \
+                    isinstance(k.args[0], ast.Name) and k.args[0].id == idv and a.args and isinstance(a.args[0], ast.Name) and a.args[0].id == idv:
+                return True, 'loop: %s[extract_recording_category(%s)].append(%s)' % (norm(tgt.value), idv, idv)
         return False, 'the grouping loop does not append each id exactly once to the group of its extracted category'
     # form (ii): groupby over input sorted by the same key
     for n in ast.walk(grp.node):
